@@ -13,10 +13,10 @@ use std::time::Duration;
 use vcore::refval::RefVal;
 use vcore::report::Report;
 
-const EVENTS: [&str; 22] = [
+const EVENTS: [&str; 23] = [
     "send->live", "send->dead", "send->never", "reg_send->registered", "reg_send->unknown", "exit->live", "monitor_exit->live", "rpc_reply",
     "unknown_control_99", "control_rejected_by_parser", "tick", "undecodable_body", "wrong_marker", "overlong_length", "premature_close", "close",
-    "silence_5s", "silence_9s", "silence_15s", "local:register_later", "reg_send->later", "send->crashed",
+    "silence_5s", "silence_9s", "silence_15s", "local:register_later", "reg_send->later", "send->crashed", "local:send_fails",
 ];
 
 fn execute(seq: &[usize], ctx: &WorkerCtx) -> ExecResult {
@@ -107,6 +107,16 @@ fn execute(seq: &[usize], ctx: &WorkerCtx) -> ExecResult {
                     if idle >= Duration::from_secs(10) && alive_asis { alive_asis = false; idle_death = true; }
                 }
                 "local:register_later" => { is_frame = false; if !later_registered { let _ = nw.node.register(Atom::new("later"), p1.clone()).await; later_registered = true; } }
+                "local:send_fails" => {
+                    // a local send that cannot be encoded (atom of 70 000 bytes) or is addressed to an unconnected node fails
+                    // on this side; the connection to the peer is not involved
+                    is_frame = false;
+                    let huge = OwnedTerm::Atom(Atom::new("a".repeat(70_000)));
+                    let to_peer = erltf::types::ExternalPid::new(Atom::new(PEER_NAME), 5, 0, crate::world::PEER_CREATION);
+                    let r1 = nw.node.send(&to_peer, huge).await;
+                    let r2 = nw.node.send(&erltf::types::ExternalPid::new(Atom::new("nobody@127.0.0.1"), 1, 0, 1), OwnedTerm::atom("x")).await;
+                    if r1.is_ok() || r2.is_ok() { res.violations.push(("a send that cannot succeed returned Ok".into(), json!({"unencodable": r1.is_ok(), "unconnected": r2.is_ok()}))); }
+                }
                 _ => unreachable!(),
             }
             if is_frame && alive_asis && !matches!(name, "overlong_length" | "premature_close") { idle = Duration::ZERO; }
@@ -281,6 +291,6 @@ pub fn run(rep: &Report) -> Value {
         "distinct_outcomes": st.distinct_outcomes,
         "outcomes": st.outcomes,
         "unstable_failures_not_reported": st.unstable,
-        "rule": format!("every sequence of <= {} events over a 22-event alphabet (sends to live/dead/never-existing pids and to a process whose handler panicked, registered/unknown/late-registered names, exit, monitor exit, rpc reply, unknown control kind, control tuple the parser rejects, tick, undecodable body (truncated term, marker only, marker and version only, unknown tag - by position), wrong marker, over-long length, premature close, close, 5/9/15 s of silence, a local registration) against a real started Node with three instrumented processes and one outstanding remote call, followed by a final valid message; plus five backlog executions in which a process held at a gate is sent 999..1500 messages, an exit signal and traffic for another process (mailbox capacity is 1000); four executions in which the peer's first 0..5 frames (and half of one more) share a TCP segment with the handshake acknowledgement; states = complete executions", max_len),
+        "rule": format!("every sequence of <= {} events over a 23-event alphabet (sends to live/dead/never-existing pids and to a process whose handler panicked, registered/unknown/late-registered names, exit, monitor exit, rpc reply, unknown control kind, control tuple the parser rejects, tick, undecodable body (truncated term, marker only, marker and version only, unknown tag - by position), wrong marker, over-long length, premature close, close, 5/9/15 s of silence, a local registration, a local send that fails before anything is written) against a real started Node with three instrumented processes and one outstanding remote call, followed by a final valid message; plus five backlog executions in which a process held at a gate is sent 999..1500 messages, an exit signal and traffic for another process (mailbox capacity is 1000); four executions in which the peer's first 0..5 frames (and half of one more) share a TCP segment with the handshake acknowledgement; states = complete executions", max_len),
     })
 }
